@@ -30,7 +30,7 @@ var c05BinOps = []string{"+", "-", "*", "/", "%", "&", "|", "<<", ">>", "==", "!
 
 // c05Val is a value of the tower.
 type c05Val struct {
-	kind byte // 'i','f','s'
+	kind byte // 'i','f','s'; 'F' = "a float64 whose value the statement does not fix" (never a leaf, see c05BinAnyFloat)
 	i    int64
 	f    float64
 	s    string
@@ -55,6 +55,8 @@ func (v c05Val) String() string {
 			return "float64(NaN)"
 		}
 		return fmt.Sprintf("float64(%s|%016x)", strconv.FormatFloat(v.f, 'g', -1, 64), math.Float64bits(v.f))
+	case 'F':
+		return "float64(any value) or an error"
 	}
 	return "string(" + strconv.Quote(v.s) + ")"
 }
@@ -116,8 +118,18 @@ func c05Sprint(v c05Val) string {
 
 // native reference for a binary operator
 func c05Bin(op string, x, y c05Val) c05Res {
+	if x.kind == 'F' || y.kind == 'F' {
+		return c05BinAnyFloat(op, x, y)
+	}
 	if x.kind == 's' || y.kind == 's' {
 		switch {
+		case op == "-" && (x.kind == 'f' || y.kind == 'f'):
+			// "+ - * ... are carried out in float64 as soon as one operand is a float":
+			// the quantifier pairs every operator with strings too, and only `+`
+			// (concatenation) and `string * n` are given another meaning. What number
+			// a string counts as is not stated, so only the kind of the outcome is
+			// fixed: a float64 (or an error), never an int64 or a string.
+			return c05Res{v: c05Val{kind: 'F'}}
 		case op == "+":
 			return c05Res{v: c05Val{kind: 's', s: c05Sprint(x) + c05Sprint(y)}}
 		case op == "*" && x.kind == 's' && y.kind == 'i':
@@ -233,6 +245,9 @@ func c05Un(op string, x c05Val) c05Res {
 		if x.kind == 'f' {
 			return c05Res{v: c05Val{kind: 'f', f: -x.f}}
 		}
+		if x.kind == 'F' {
+			return c05Res{v: x}
+		}
 	case "^":
 		if x.kind == 'i' {
 			return c05Res{v: c05Val{kind: 'i', i: ^x.i}}
@@ -321,6 +336,9 @@ func c05Check(c *wk.Case, e *env.Env, src string, want c05Res, tag string, defs 
 	c.Eval(src+fmt.Sprint(defs), true)
 	c.Events(1)
 	input := map[string]interface{}{"src": src, "defs": renderDefs(defs)}
+	if c05HistoryCtx != nil {
+		input["history"] = c05HistoryCtx // phase history: what the process ran before src
+	}
 	if c.WantSample() {
 		c.Sample(map[string]interface{}{"src": src, "defs": renderDefs(defs), "native": c05Want(want), "anko": ank.Render(o.Val), "err": ank.ErrText(o.Err)})
 	}
@@ -331,6 +349,17 @@ func c05Check(c *wk.Case, e *env.Env, src string, want c05Res, tag string, defs 
 	if want.isErr {
 		if o.Err == nil {
 			c.Violation("noerror:"+tag, fmt.Sprintf("expected an error, got %s", ank.Render(o.Val)), input)
+		}
+		return
+	}
+	if want.v.kind == 'F' && !want.isBool {
+		// only the kind of the outcome is stated: a float64 of any value, or an error
+		if o.Err != nil {
+			c.Tag("anyfloat:error-accepted")
+			return
+		}
+		if _, isFloat := o.Val.(float64); !isFloat {
+			c.Violation("type:"+tag, fmt.Sprintf("got %s of type %v, want %s", ank.Render(o.Val), reflect.TypeOf(o.Val), c05Want(want)), input)
 		}
 		return
 	}
@@ -406,7 +435,7 @@ func kindTag(v c05Val) string {
 			return "intcached"
 		}
 		return "int"
-	case 'f':
+	case 'f', 'F':
 		return "float"
 	}
 	return "string"
@@ -424,28 +453,35 @@ func init() {
 	wk.Register(&wk.Engine{
 		ID: "C05",
 		Plan: func(tier string) fw.Plan {
-			nRand, nConc := 300, 8
+			nRand, nConc, nHist := 300, 8, 24
 			if tier == "thorough" {
-				nRand, nConc = 100000, 400
+				nRand, nConc, nHist = 100000, 400, 4000
 			}
 			return fw.Plan{
 				Level: "exploration",
 				Rule: "phase enum: every operator of {+ - * / % & | << >> == != < <= > >=} on ALL ordered pairs of the int64/float64 boundary pools (complete enumeration), " +
 					"operands supplied as literals and as variables; unary - ^ on the pool; string +/* tables; cache-transparency identities for every i in -3..4098. " +
 					"Compound forms (x op= y is x = x op y, x++/x-- is x = x +/- 1; same native reference as the binary operator): every operator of {+= -= *= /= &= |=} on ALL ordered pairs of the pools, ++/-- on the pools, the string tables (s += t, s += number, number += s, s *= n, s++), each through four kinds of places: a plain variable, a list element, a map member and a function parameter (complete enumeration, operands as literals and as variables, containers built by the script and supplied by the host). " +
-					"phase trees: PRNG-generated expression trees (depth<=4, fully parenthesised) and unparenthesised chains of one precedence level (x op c1 op c2 ..., string/float/int first operand, literal and variable operands) evaluated natively in Go as the left fold; PRNG-generated sequences of 2-4 compound assignments on one place (`t = v; t += a; t *= b - c; t++; t`, operand a leaf or an unparenthesised binary expression) evaluated natively as the fold of the binary operators. phase concurrent (race build): 8 independent interpreters (own environment each) evaluate integer operator chains at the same time, every result handed to a host probe that recomputes it natively (results of different interpreters are chosen congruent modulo 256 and 4096 and outside the small-value range); no race report allowed. An evaluation is non-trivial when the native reference is inside the property's stated domain; distinct = distinct (source, bindings).",
-				Assumptions: []string{"Go's own int64/float64 arithmetic, strconv and fmt are the reference", "operands outside the statement (bool/nil, float operands of % & | << >>, n*string) are not judged",
+					"phase trees: PRNG-generated expression trees (depth<=4, fully parenthesised) and unparenthesised chains of one precedence level (x op c1 op c2 ..., string/float/int first operand, literal and variable operands) evaluated natively in Go as the left fold; PRNG-generated sequences of 2-4 compound assignments on one place (`t = v; t += a; t *= b - c; t++; t`, operand a leaf or an unparenthesised binary expression) evaluated natively as the fold of the binary operators. phase concurrent (race build): 8 independent interpreters (own environment each) evaluate integer operator chains at the same time, every result handed to a host probe that recomputes it natively (results of different interpreters are chosen congruent modulo 256 and 4096 and outside the small-value range); no race report allowed. `-` and `-=` with a float64 on one side and a string on the other (either order; the strings of the string table and spellings of numbers; literals, variables, container elements, below the root of a tree): the outcome is a float64 of any value or an error, never an int64. phase history: one case = one history in a fresh environment, 3-7 PRNG-chosen steps that try to write to an integer operator/len result (pointer taken of the result - `q = &(a op b); *q = w`, `*q += w`, `*q++`, through a copy of the pointer, inside a loop, inside a script function, through host functions taking *int64 / interface{}, of a call result, of `(i += d)` / `(i++)` - and stores to names, list elements, map members and parameters bound to the result), targets inside, on the edges of and outside the small-value range; afterwards every target value is produced again by every operator of the statement (and used in comparisons, a concatenation and float operations) in the same and in a fresh environment, one row of the enumerated table is recomputed, and a fresh environment sweeps every integer of -3..4098 through eleven formulas checked by a host probe; the cases of a chunk share one process. An evaluation is non-trivial when the native reference is inside the property's stated domain; distinct = distinct (source, bindings).",
+				Assumptions: []string{"Go's own int64/float64 arithmetic, strconv and fmt are the reference", "operands outside the statement (bool/nil, float operands of % & | << >>, n*string, string*float, int - string, string / x, comparisons with a string) are not judged",
+					"float - string and string - float: the statement fixes the kind of the outcome (float64) but not the number a string counts as; an error is accepted too",
+					"the steps of a history are not judged themselves (the statement says nothing about pointers); only the arithmetic done after them is, against the same native reference",
 					"a compound assignment `x op= y` / `x++` / `x--` denotes `x = x op y` / `x = x + 1` / `x = x - 1` with the operator of the statement (the language's definition of the compound forms); only the value stored in the place is judged, operands are free of side effects (evaluation order belongs to C07)"},
 				Phases: []fw.Phase{
 					{Name: "enum", Cases: compBase + nCompAll, Chunk: 60, Exhaust: true, TimeoutS: 600},
 					{Name: "trees", Cases: nRand, Chunk: 100, TimeoutS: 900},
 					{Name: "concurrent", Race: true, Cases: nConc, Chunk: 4, TimeoutS: 900, Jobs: 4},
+					{Name: "history", Cases: nHist, Chunk: 4, TimeoutS: 600, Jobs: 4, MemMB: 3072},
 				},
 			}
 		},
 		Run: func(c *wk.Case) {
 			if c.Phase == "concurrent" {
 				c05Concurrent(c)
+				return
+			}
+			if c.Phase == "history" {
+				c05History(c, pool)
 				return
 			}
 			e := ank.NewCoreEnv()
@@ -515,6 +551,9 @@ func init() {
 							c05Check(c, e, strconv.Quote(s)+" + "+lit, c05Bin("+", sv, y), "+:string,"+kindTag(y), defs)
 							c05Check(c, e, lit+" + "+strconv.Quote(s), c05Bin("+", y, sv), "+:"+kindTag(y)+",string", defs)
 							c05Check(c, e, "y + s", c05Bin("+", y, sv), "+:"+kindTag(y)+",string", map[string]interface{}{"y": y.goValue(), "s": s})
+							// `-` with a float on one side and a string on the other (c05Bin: the
+							// outcome is a float64; int - string is not stated and not judged)
+							c05MinusStringFloat(c, e, sv, y, defs, lit)
 						}
 						for n := int64(-1); n <= 8; n++ {
 							c05Check(c, e, strconv.Quote(s)+" * "+strconv.FormatInt(n, 10), c05Bin("*", sv, c05Val{kind: 'i', i: n}), "*:string,int", nil)
@@ -522,6 +561,7 @@ func init() {
 						}
 						c.Tag("op:string")
 					}
+					c05MinusStringsExtra(c, e, pool)
 				default:
 					// cache transparency: half of the range per case
 					lo, hi := int64(-3), int64(2048)
@@ -868,8 +908,8 @@ func c05CompoundEnum(c *wk.Case, e *env.Env, pool []c05Val, k, nComp int) {
 			c05Compound(c, e, op, x, y, c05Bin(op, x, y), op+"=:"+kindTag(x)+","+kindTag(y), j+k)
 		}
 	case k < nComp+len(c05Strings):
-		// string table, one string per case: s += t, s += number, number += s, s *= n, s++
-		// (s -= .., s /= .., n *= s are outside the statement: c05Bin says unspec)
+		// string table, one string per case: s += t, s += number, number += s, s *= n, s++,
+		// s -= float, float -= s (s -= int, s /= .., n *= s are outside the statement: c05Bin says unspec)
 		sv := c05Val{kind: 's', s: c05Strings[k-nComp]}
 		alt := k
 		for _, t := range c05Strings {
@@ -882,6 +922,11 @@ func c05CompoundEnum(c *wk.Case, e *env.Env, pool []c05Val, k, nComp int) {
 			c05Compound(c, e, "+", y, sv, c05Bin("+", y, sv), "+=:"+kindTag(y)+",string", alt+1)
 			if y.kind == 'i' {
 				c05Compound(c, e, "*", sv, y, c05Bin("*", sv, y), "*=:string,"+kindTag(y), alt+2)
+			}
+			if y.kind == 'f' {
+				// s -= float, float -= s: a float64 (c05Bin)
+				c05Compound(c, e, "-", sv, y, c05Bin("-", sv, y), "-=:string,float", alt+3)
+				c05Compound(c, e, "-", y, sv, c05Bin("-", y, sv), "-=:float,string", alt)
 			}
 			alt++
 		}
